@@ -1542,7 +1542,9 @@ fn gen_design(r: &mut Rng, level: u32, seq: bool) -> Case {
     let mut hidden: Vec<usize> = vec![];
     let mut hidden_ff: Vec<usize> = vec![];
     let mut dyn_decls: Vec<D> = vec![];
-    if g.r.chance(1, 2) {
+    // only in strata S0–S2: with wide (S3) or X/constant-only (S4) material the engines' other known
+    // defect classes interact with dynamic stores in ways that are not classified yet
+    if level <= 2 && g.r.chance(1, 2) {
         let k = g.r.range(1, 3) as usize;
         let w = *g.r.pick(&[1usize, 1, 2, 3, 4, 4, 8]);
         let tw = w << k;
